@@ -196,7 +196,22 @@ def accepted_language(src, f, rep):
             accepted = ok
             chosen_ok = Rm.minus(Gm)
         else:
-            # restrict the marked language to the parses backtracking can choose: a leading greedy optional group participates
+            # restrict the marked language to the parse backtracking chooses: exactly, by the priority construction (sa.rxprio), where
+            # the pattern is within its vocabulary ...
+            from .. import rxprio
+            try:
+                Rp = rxprio.chosen_lang(pattern, flags, mode, groups, markers, alpha)
+            except AnalysisError:
+                Rp = None
+            if Rp is not None:
+                okp = rx.erase_markers(Rp.minus(Gm))
+                rejp = rx.erase_markers(Rp.intersect(Gm))
+                both = okp.intersect(rejp).witness()
+                lostp = L.minus(rx.erase_markers(Rp)).witness()
+                if both is None and lostp is None:
+                    return dict(regex=r, mode=mode, mvar=mvar, subject=subject, groups=groups, markers=markers, Rm=Rm, L=L,
+                                accepted=okp, chosen_ok=Rp.minus(Gm), guards=guards, rest=rest, alpha=alpha)
+            # ... else by two rules of thumb: a leading greedy optional group participates
             # whenever some parse has it; a group ending in a lazy / greedy one-character repeat closes as early / late as possible
             Rc = Rm
             prio = first_optional_groups(pattern, flags, set(groups))
@@ -616,3 +631,18 @@ def check(src, rep, tier):
         rep.error('C14.R3', 'not evaluated: the accepted language (C14.R1) is not available')
     if tier == 'thorough':
         common.regex_audit(rep, src, 'C14', modules=['debian_support'])
+        # analyser self-consistency: the priority construction against CPython's own parse of every string of up to five characters
+        # over the characters the grammar distinguishes (a disagreement is an analysis error, never a violation)
+        import itertools
+        from .. import rxprio
+        if A is not None:
+            r_ = A['regex']
+            try:
+                samples = [''.join(t_) for n_ in range(0, 6) for t_ in itertools.product('01:-.a~+', repeat=n_)]
+                bad_ = rxprio.selfcheck(r_['pattern'], r_['flags'], list(A['groups']), samples, A['mode'])
+                if bad_:
+                    rep.error('C14.R1', 'analyser self-check: the priority construction disagrees with re on %r (%s)' % (bad_[0][0], bad_[0][1]))
+                else:
+                    rep.extra['rxprio_selfcheck'] = '%d strings, the parse CPython returns is the one the automaton keeps' % len(samples)
+            except AnalysisError as e_:
+                rep.extra['rxprio_selfcheck'] = 'not applicable to this pattern: %s' % e_
